@@ -420,9 +420,9 @@ EXPLANATION = ("Indexer::append and Indexer::rollback are executed symbolically 
                "restore the state before the append. The get_transactions query is executed on two symbolic index rows under the searched prefix (membership in the prefix, coordinates, "
                "filter-row existence and transaction identity symbolic), the database iterator and point lookups as environment.")
 BOUNDS = {"scenarios": "5 block shapes (cellbase only; spending an untyped / typed cell of an earlier block; a cell created and spent inside the block; an input unknown to the index), <= 3 transactions, <= 2 inputs/outputs",
-          "query": "get_transactions: 2 rows following the start key, limit 1 and 2, Lock/Type search, grouped/ungrouped, exact/prefix mode, script filter present, block range present or not",
-          "query_capacity": "get_cells_capacity: 2 rows, Lock/Type search, one filter at a time (9 kinds), exact and prefix mode, newest header row present or not",
-          "query_cells": "get_cells: 2 rows following the start key, Lock/Type search, one filter at a time (9 kinds incl. none), exact mode limit 2 (limit 1 for two filters), prefix mode, with and without data; with a pool attached (cells consumed by pool transactions are hidden); one row with ALL filters and the pool at once",
+          "query": "get_transactions: 2 rows (thorough: 3 in the ungrouped branch) following the start key, limit 1 and 2, Lock/Type search, grouped/ungrouped, exact/prefix mode, script filter present, block range present or not",
+          "query_capacity": "get_cells_capacity: 2 rows (thorough: 3), Lock/Type search, one filter at a time (9 kinds), exact and prefix mode, newest header row present or not",
+          "query_cells": "get_cells: 2 rows (thorough: 3) following the start key, Lock/Type search, one filter at a time (9 kinds incl. none), exact mode limit 2 (limit 1 for two filters), prefix mode, with and without data; with a pool attached (cells consumed by pool transactions are hidden); one row with ALL filters and the pool at once",
           "query_options": "FilterOptions conversion: 4 search keys (all filter fields given, no output-data mode, no filter, with_data false); build_query_options: Lock/Type x Asc/Desc x with/without cursor, byte strings as lists of segments",
           "outside": "byte encodings of keys and values, combinations of several filters on more than one row, custom filters, prune, rich indexer"}
 ASSUMPTIONS = ["key and value byte encodings are injective (modelled as records)", "store reads see the committed state, batch writes become visible at commit", "no custom filter; append/rollback without pool, queries with and without pool (the pool's answer per out-point is an environment symbol)",
